@@ -124,7 +124,7 @@ fn start_daemon(path: &std::path::Path, drift: u32, phc_info: Option<PhcInfo>, p
         wverif::run_updater(wctx, nw.0, drift);
     });
     let poller = std::thread::spawn(move || {
-        pverif::run_poller(pctx, phc_info, Duration::from_millis(2));
+        pverif::run_poller(pctx, phc_info, Duration::from_secs(1_000_000_000)); // woken by messages only: virtual time jumps must not end the wait
     });
     Daemon { dbox, poller, writer, _main_mbox: main_mbox }
 }
